@@ -16,6 +16,10 @@
   PKCS7-REJECT  the CBC unpadding returns a length only with 0 < pad <= 16 in force and after a comparison of block octets
                 with the pad length whose failing side is an error return; the public decryption turns that error into
                 RLC_ERR
+  SHIFT-DEAD    no value explicitly narrowed to w bits is shifted right by w or more (the octet is constantly zero: a length
+                prefix or counter loses its high octets)
+  KDF-COUNTER   the mask-generation function starts its block counter at 0 (PKCS #1 MGF1), the key-derivation function at 1
+                (IEEE 1363 KDF2), and the counter is appended to the input as four big-endian octets
   HMAC-KEY      a key longer than the block size is replaced by its digest before the pads are built, and the threshold,
                 the zero fill and the pad loop use one block size
 """
@@ -706,6 +710,91 @@ def _hash_block_size(prog):
     return {"SH224": 64, "SH256": 64, "B2S160": 64, "B2S256": 64, "SH384": 128, "SH512": 128}.get(m.group(1))
 
 
+# ---------------------------------------------------------------------- KDF-COUNTER
+def rule_kdf_counter(ctx, prog, chk):
+    n = 0
+    want = {"md_mgf": 0, "md_kdf": 1}
+    helpers = set()
+    for fn in prog.all:
+        if not in_scope(fn):
+            continue
+        base = fn.name.split("__")[-1]
+        if base not in want:
+            continue
+        calls = [sub for el in fn.all_elements() for sub in ir.walk(fn, el.e) if sub[0] == "c" and sub[1] and prog.get(sub[1], near=fn) is not None and in_scope(prog.get(sub[1], near=fn))]
+        if len(calls) != 1 or not calls[0][2]:
+            chk.note("KDF-COUNTER: %s does not delegate to one helper: shape not recognised, not decided" % fn.name)
+            continue
+        n += 1
+        c = calls[0]
+        k = _const(fn, c[2][-1])
+        if k is None:
+            chk.note("KDF-COUNTER: %s: the counter start handed to %s is not a constant, not decided" % (fn.name, c[1]))
+        elif k != want[base]:
+            chk.fail("KDF-COUNTER", fn, "start", "%s starts the block counter at %d, the standard it implements (%s) at %d: every derived octet differs from what another implementation derives, while the library's own round trips still agree" % (
+                base, k, "PKCS #1 MGF1" if base == "md_mgf" else "IEEE 1363 KDF2", want[base]), line=fn.line)
+        else:
+            chk.ok("KDF-COUNTER", fn, "start", "counter starts at %d" % k, line=fn.line)
+        helpers.add(prog.get(c[1], near=fn))
+    for h in helpers:
+        # the counter octets: memcpy(<buffer> + <input length parameter>, &j, 4) with j = util_conv_big(counter)
+        big = set()
+        for el in h.all_elements():
+            for sub in ir.walk(h, el.e):
+                if sub[0] == "=":
+                    l = ir.strip_casts(sub[1])
+                    r = ir.strip_casts(h.resolve(sub[2]))
+                    if isinstance(l, list) and l[0] == "v" and isinstance(r, list) and r and r[0] == "c" and r[1] == "util_conv_big":
+                        big.add(l[1])
+        found = None
+        for el in h.all_elements():
+            for sub in ir.walk(h, el.e):
+                if sub[0] == "c" and sub[1] == "memcpy" and len(sub[2]) == 3:
+                    src = ir.strip_casts(h.resolve(sub[2][1]))
+                    if isinstance(src, list) and src[0] == "u" and src[1] == "&":
+                        v = ir.strip_casts(src[2])
+                        if isinstance(v, list) and v[0] == "v":
+                            found = (el, v[1], sub)
+        if found is None:
+            chk.note("KDF-COUNTER: %s: no memcpy of a counter variable found, byte order not decided" % h.name)
+            continue
+        n += 1
+        el, v, sub = found
+        dst = ir.strip_casts(h.resolve(sub[2][0]))
+        off_ok = isinstance(dst, list) and dst[0] == "b" and dst[1] == "+" and any(x[0] == "v" and h.vars[x[1]].get("k") == "p" for x in ir.walk(h, dst[3]))
+        if v not in big:
+            chk.fail("KDF-COUNTER", h, "octets", "the counter octets appended to the input are copied from `%s`, which is not the big-endian conversion of the counter (util_conv_big): on a little-endian machine the counter is appended least significant octet first" % h.vars[v]["n"], line=el.line)
+        elif _const(h, sub[2][2]) != 4 or not off_ok:
+            chk.fail("KDF-COUNTER", h, "octets", "the counter is not appended as four octets right after the input", line=el.line)
+        else:
+            chk.ok("KDF-COUNTER", h, "octets", "four big-endian octets after the input", line=el.line)
+    return n
+
+
+# ---------------------------------------------------------------------- SHIFT-DEAD
+def rule_shift_dead(ctx, prog, chk):
+    n = 0
+    for fn in prog.all:
+        if not in_scope(fn):
+            continue
+        for el in fn.all_elements():
+            for sub in ir.walk(fn, el.e):
+                if not (sub[0] == "b" and sub[1] == ">>"):
+                    continue
+                k = _const(fn, sub[3])
+                if k is None:
+                    continue
+                n += 1
+                l = fn.resolve(sub[2])
+                if isinstance(l, list) and l and l[0] == "k" and isinstance(l[1], dict) and l[1].get("c") in INTS + INT8 and l[1].get("sz") and 8 * l[1]["sz"] <= k \
+                        and (l[1]["c"].startswith("unsigned") or l[1]["c"] == "char"):
+                    chk.fail("SHIFT-DEAD", fn, fn.fmt(sub)[:40], "`%s` narrows its operand to %d bits and then shifts it right by %d: the result is 0 for every input, the high octet of the quantity is lost" % (
+                        fn.fmt(sub)[:60], 8 * l[1]["sz"], k), line=el.line)
+                else:
+                    chk.ok("SHIFT-DEAD", fn, fn.fmt(sub)[:40], "operand wider than the shift", line=el.line)
+    return n
+
+
 # ---------------------------------------------------------------------- driver
 def analyse(ctx, prog, chk, selftest=False):
     chk.used_program(prog)
@@ -716,6 +805,8 @@ def analyse(ctx, prog, chk, selftest=False):
     c["carry"] = rule_len_carry(ctx, prog, chk)
     c["pkcs7"] = rule_pkcs7(ctx, prog, chk)
     c["hmac"] = rule_hmac(ctx, prog, chk)
+    c["shift"] = rule_shift_dead(ctx, prog, chk)
+    c["kdf"] = rule_kdf_counter(ctx, prog, chk)
     return c
 
 
@@ -731,6 +822,8 @@ def run(ctx, chk):
     chk.floor("LEN-CARRY", "functions adding to a multi-word bit length", c["carry"], 2)
     chk.floor("PKCS7-REJECT", "unpadding release points and wrappers", c["pkcs7"], 2)
     chk.floor("HMAC-KEY", "HMAC key preparations", c["hmac"], 1)
+    chk.floor("KDF-COUNTER", "counter starts and counter encodings", c["kdf"], 3)
+    chk.floor("SHIFT-DEAD", "right shifts by a constant", c["shift"], 100)
     if chk.tier == "thorough":
         from .. import facts
         # the HMAC block size and the tables under the other digest selections
